@@ -1105,3 +1105,27 @@ Proof.
   - cbn. lia.
   - lia.
 Qed.
+
+(* ====================================================================================================================
+   NOTE — positive tolerance factors (quadratic_upperbound_tolerance_factor = linesearch_tolerance_factor = 10 ε_mach by default).  NOT PROVED.
+   What survives with tq := p_qub_tol > 0, tl := p_ls_tol > 0 (same proofs): a violated QUB test still forces L < Lf (the slack (1+|ψ(x)|)·tq only
+   makes the test harder to violate), so L <= max(L_init, 2 Lf), γ >= γmin and the line search terminates; an accepted step gives
+        φ(x⁺) <= φ(x) - cmin·‖p‖² + s(x),     s(x) = (1+|ψ(x)|)·tq  (safeguarded step)   or   (1+|φ_γ(x)|)·tl  (accelerated step),
+   and the lower bound of the envelope degrades to  ψinf <= φ_γ(x) + (1+|ψ(x)|)·tq.
+   What breaks, precisely:
+   (a) PanocLive.same_x_forces_zero_step (the exclusion of NoProgress) is FALSE for tl > 0, and with it the theorem "for EVERY direction oracle":
+       counter-run (oracle level): the oracle that always returns q = 0 (finite, so τ_init = 1).  The candidate is x + q = x with the same γ, its
+       QUB test is the one x already passed, and the line-search test  φ(x) <= φ(x) - σ‖p‖² + (1+|φ(x)|)·tl  ACCEPTS it as soon as
+       σ‖p‖² <= (1+|φ(x)|)·tl  (σ = β(1-Lγ)/(2γ)).  x does not move, ε stays above the tolerance, no_progress is incremented at every
+       iteration and the run returns NoProgress after max_no_progress iterations.  So for a tolerance below sqrt((1+|φ|)·tl/σ) (≈ 1e-7·sqrt((1+|φ|)γ)
+       with the default factor; the default tolerance is 1e-8) convergence can be defeated by a direction provider; a positive-tolerance
+       theorem therefore needs the smallness hypothesis  s < cmin·δ²  (then x⁺ = x still forces ‖p‖ <= δ), or provider-specific reasoning
+       (LBFGS with H ≻ 0 never returns q = 0 for p ≠ 0; NoopDirection never takes an accelerated step).
+   (b) the smallness hypothesis cannot be stated on the problem alone with the present invariants: s(x_k) involves |ψ(x_k)| at the iterate x_k,
+       which an accelerated step may place OUTSIDE C, where ψ is not bounded below by hypothesis and ψ(x_k) is not controlled by φ_γ(x_k)
+       (φ_γ(x) <= ψ(x) only for x in C).  |φ_γ(x_k)| IS controlled (ψinf - s <= φ <= Φ0 + k·s), |ψ(x_k)| is not: a clean statement needs an
+       extra problem hypothesis such as "|ψ| <= Ψ on {x : φ_γ(x) <= Φ0 + N·s for some γ in [γmin, γ0]}" (compact sublevel sets of the envelope);
+       with it: N' = ceil((Φ0 - ψinf + (1+Ψ)·tq) / (cmin·δ² - s̄)), s̄ = (1+Ψ)·tq + (1+Φ)·tl < cmin·δ², Φ = max(|ψinf| + (1+Ψ)tq, |Φ0| + N'·s̄).
+       Doing it requires re-proving ls_invariant2 / iteration_descent / fbe_lower / pass_live with the slack terms (they take p_qub_tol = 0 and
+       p_ls_tol = 0 as hypotheses); not done here.  The check's oracle runs the default factors on the implementation (every stack must return Converged).
+   ==================================================================================================================== *)
